@@ -37,6 +37,7 @@ const (
 	sGridY    = 25
 	sLoad     = 32 // s[32:39]: destination of generated scalar loads
 	numSGPR   = 40
+	sBurst    = 40 // s40..s63: registers of a scalar-load burst
 )
 
 type compiler struct {
@@ -51,6 +52,7 @@ type compiler struct {
 	label       int
 	list        []string
 	waitStyleOf map[int]int
+	sburst      bool
 	fold        map[int]int
 }
 
@@ -326,6 +328,19 @@ func (p *Program) Compile() (*Compiled, error) {
 		case "sload":
 			_, dst := c.newValue()
 			smemOp := map[int]int{1: kasm.OpSLoadDword, 2: kasm.OpSLoadDwordx2, 4: kasm.OpSLoadDwordx4, 8: kasm.OpSLoadDwordx8}[o.N]
+			if o.Rep > 1 {
+				c.sburst = true
+				for j := 0; j < o.Rep; j++ {
+					a.SMEM(kasm.OpSLoadDword, kasm.S(sBurst+j), kasm.S(sIn0+2*o.K), o.Imm+uint32(4*j))
+				}
+				a.Waitcnt(15, 7, 0)
+				a.SOP1(kasm.OpSMovB32, kasm.S(sLoad), kasm.S(sBurst))
+				for j := 1; j < o.Rep; j++ {
+					a.SOP2(kasm.OpSXorB32, kasm.S(sLoad), kasm.S(sLoad), kasm.S(sBurst+j))
+				}
+				a.VOP1(kasm.OpVMovB32, dst, kasm.S(sLoad))
+				break
+			}
 			a.SMEM(smemOp, kasm.S(sLoad), kasm.S(sIn0+2*o.K), o.Imm)
 			a.Waitcnt(15, 7, 0)
 			for j := 1; j < o.N; j++ {
@@ -409,6 +424,9 @@ func (p *Program) Compile() (*Compiled, error) {
 		nv = 256
 	}
 	ns := numSGPR + p.PadSGPR
+	if c.sburst && ns < sBurst+MaxSBurst {
+		ns = sBurst + MaxSBurst
+	}
 	if ns > 102 {
 		ns = 102
 	}
